@@ -495,7 +495,7 @@ theorem mergeStep_good (acc : AnyIt) (L b : List Sample) (hacc : GoodL acc L) (h
     GoodL (mergeStep true acc b) (pm2 minT L b) := by
   obtain ⟨V, abs, hl, hi⟩ := hacc
   exact ⟨nodeV V xorV abs xorAbs, nodeAbs abs xorAbs, node_listLike hl xor_listLike true,
-    node_initLike hl xor_listLike hi (xor_initLike b h)⟩
+    node_initLike hl xor_listLike hi.toNext (xor_initLike b h).toNext⟩
 
 theorem mergeFold_good (l : List Sample) (ls : List (List Sample))
     (h : ∀ q ∈ l :: ls, ∀ x ∈ q, minT < x.t) :
